@@ -373,6 +373,27 @@ func (m *model) applyCfg(mu Mut) bool {
 			return setPath(doc, mu.Key, nil, true)
 		}
 		return setPath(doc, mu.Key, raw(cfgRaw[mu.Val]), false)
+	case "alias":
+		other := map[string]string{"hidden_size": "n_embd", "num_attention_heads": "n_head", "num_hidden_layers": "n_layers"}[mu.Key]
+		if other == "" {
+			return false
+		}
+		cur, ok := doc[mu.Key]
+		if !ok {
+			return false
+		}
+		delete(doc, mu.Key)
+		if v, hostile := cfgRaw[mu.Val]; hostile {
+			doc[other] = raw(v)
+		} else {
+			doc[other] = cur
+		}
+		if mu.T == 1 {
+			setPath(doc, "rope_scaling.rope_type", raw(`"llama3"`), false)
+			setPath(doc, "rope_scaling.factor", raw("8"), false)
+			setPath(doc, "rope_scaling.original_max_position_embeddings", raw("8192"), false)
+		}
+		return true
 	case "arch":
 		switch mu.Val {
 		case "emptyarr":
